@@ -35,20 +35,18 @@ class Mesh3D(Mesh):
     def boundary_edges(self) -> ndarray:
         """Return an array of boundary edge indices."""
         facets = self.boundary_facets()
-        boundary_edges = np.sort(np.hstack(
-            tuple([np.vstack((self.facets[itr, facets],
-                              self.facets[(itr + 1) % self.facets.shape[0],
-                              facets]))
-                   for itr in range(self.facets.shape[0])])).T, axis=1)
-        edge_candidates = np.unique(self.t2e[:, self.f2t[0, facets]])
-        A = self.edges[:, edge_candidates].T
-        B = boundary_edges
-        dims = A.max(0) + 1
-        ix = np.where(np.isin(
-            np.ravel_multi_index(A.T, dims),  # type: ignore
-            np.ravel_multi_index(B.T, dims),  # type: ignore
-        ))[0]
-        return edge_candidates[ix]
+        tix = self.f2t[0, facets]
+        refdom = self.elem.refdom
+        edges = []
+        for i, lfacet in enumerate(refdom.facets):
+            # local edges of the local facet i, taken from the reference
+            # cell; the vertex order of self.facets is not cyclic for all
+            # cell types
+            ledges = [j for j, ledge in enumerate(refdom.edges)
+                      if set(ledge) <= set(lfacet)]
+            on = tix[self.t2f[i, tix] == facets]
+            edges.append(self.t2e[ledges][:, on].flatten())
+        return np.unique(np.concatenate(edges)).astype(np.int32)
 
     def interior_edges(self) -> ndarray:
         """Return an array of interior edge indices."""
